@@ -483,6 +483,9 @@ class _:
     are consumed strictly left to right and a handed-back '@' mark is the next block start (C04); the library given
     is the library returned and stays well formed (C08).
 
+    Source order (C02, C04): the block of every block region sits in the library at a position recorded with it, and
+    later regions sit at later positions -- the blocks come out in the order of their source text.
+
     Tiling (C03): ghost code records one *region* of the text per step -- the free text handed to
     _end_implicit_comment (kind 0) and the raw text of the block or failed block added to the library (kind 1, with
     the block).  The regions are consecutive, start at 0 and end at the end of the text, and the raw of every block
@@ -496,12 +499,13 @@ class _:
                 "library": "implies(not isnone(library), WF(library))"}
     locals = {"library": "ref:Library"}
     ghost_code = [
-        ("self._markiter = re.finditer(", [("gk", None, "0")]),
+        ("self._markiter = re.finditer(", [("gk", None, "0"), ("glast", None, "-1")]),
         ("implicit_comment = self._end_implicit_comment(m.start())",
          [("gs", "ghost('gk')", "ival(self._implicit_comment_start)"), ("ge", "ghost('gk')", "ms(midx(m))"), ("gkind", "ghost('gk')", "0"), ("gk", None, "ghost('gk') + 1")]),
         ("self._reset_block_status(current_char_index=next_block_start)",
          [("gs", "ghost('gk')", "ms(midx(m))"), ("ge", "ghost('gk')", "ival(next_block_start)"), ("gkind", "ghost('gk')", "1"),
-          ("gb", "ghost('gk')", "ref_id(library._blocks[len(library._blocks) - 1])"), ("gk", None, "ghost('gk') + 1")]),
+          ("gb", "ghost('gk')", "ref_id(library._blocks[len(library._blocks) - 1])"),
+          ("gi", "ghost('gk')", "len(library._blocks) - 1"), ("glast", None, "len(library._blocks) - 1"), ("gk", None, "ghost('gk') + 1")]),
         ("comment = self._end_implicit_comment(len(self.bibstr))",
          [("gs", "ghost('gk')", "ival(self._implicit_comment_start)"), ("ge", "ghost('gk')", "BLEN()"), ("gkind", "ghost('gk')", "0"), ("gk", None, "ghost('gk') + 1")]),
     ]
@@ -510,12 +514,14 @@ class _:
         "library": "allocated(library) and allocated(library._blocks) and allocated(library._entries_by_key) and allocated(library._strings_by_key) and WF(library) and implies(not isnone(old(library)), same(library, old(library)))",
         "comment-start": "comment_start_ok(self) and isint(self._implicit_comment_start)",
         "tiling": "regions_tile(ghost('gk')) and ival(self._implicit_comment_start) == (ghost('ge', ghost('gk') - 1) if ghost('gk') > 0 else 0)",
+        "source-order": "-1 <= ghost('glast') < len(library._blocks) and forall(k, 0 <= k < ghost('gk'), implies(ghost('gkind', k) == 1, 0 <= ghost('gi', k) <= ghost('glast') and ref_id(library._blocks[ghost('gi', k)]) == ghost('gb', k))) and forall((k, q), 0 <= k < q < ghost('gk'), implies(ghost('gkind', k) == 1 and ghost('gkind', q) == 1, ghost('gi', k) < ghost('gi', q)))",
         "tiling-raw": "forall(k, 0 <= k < ghost('gk'), implies(ghost('gkind', k) == 1, allocated(as_ref(ghost('gb', k), 'ref:Block')) and ghost('gb', k) > 0 and region_raw(self, k)))",
     }, "decreases": "2 * (NMARKS() - CUR()) + (1 if midx(self._unaccepted_mark) >= 0 else 0)", "props": ("C01", "C03", "C04", "C08")}}
     ensures = {
         "C01.returns-library": "WF(result) and implies(not isnone(library), same(result, library)) and implies(isnone(library), fresh(result))",
         "C04.all-consumed": "CUR() == NMARKS() and midx(self._unaccepted_mark) == -1",
         "C03.regions-tile-the-text": "regions_tile(ghost('gk')) and ghost('gk') > 0 and ghost('ge', ghost('gk') - 1) == BLEN()",
+        "C02+C04.source-order": "forall(k, 0 <= k < ghost('gk'), implies(ghost('gkind', k) == 1, 0 <= ghost('gi', k) < len(result._blocks) and ref_id(result._blocks[ghost('gi', k)]) == ghost('gb', k))) and forall((k, q), 0 <= k < q < ghost('gk'), implies(ghost('gkind', k) == 1 and ghost('gkind', q) == 1, ghost('gi', k) < ghost('gi', q)))",
         "C03.block-regions-are-raw": "forall(k, 0 <= k < ghost('gk'), implies(ghost('gkind', k) == 1, region_raw(self, k)))",
     }
     raises = {}
